@@ -4,6 +4,7 @@ import Toxi.Driver.E3
 import Toxi.Driver.E4
 import Toxi.Driver.E5
 import Toxi.Driver.E6
+import Toxi.Driver.E7
 /-
 Model driver: reads one protocol line per operation on stdin, answers one line on stdout.
 First argument selects the engine adapter.  Core Lean only (compiled as a lean_exe).
@@ -22,24 +23,34 @@ partial def loop {σ : Type} (hin hout : IO.FS.Stream) (step : σ → String →
     hout.flush
     loop hin hout step s'
 
-/-- `reset` starts a fresh episode. -/
-partial def loopR {σ : Type} (hin hout : IO.FS.Stream) (init : σ) (step : σ → String → σ × String) (s : σ) : IO Unit := do
+/-- `reset` starts a fresh episode; `try <op>` answers without committing; `push`/`pop` keep a
+stack of saved states (the linearizability search of engine E7 backtracks with them). -/
+partial def loopS {σ : Type} (hin hout : IO.FS.Stream) (init : σ) (step : σ → String → σ × String)
+    (s : σ) (stack : List σ) : IO Unit := do
   let line ← hin.getLine
   if line.isEmpty then return ()
   let l := line.trimAscii.toString
   if l == "reset" then
-    hout.putStrLn "ok"; hout.flush; loopR hin hout init step init
+    hout.putStrLn "ok"; hout.flush; loopS hin hout init step init []
+  else if l == "push" then
+    hout.putStrLn "ok"; hout.flush; loopS hin hout init step s (s :: stack)
+  else if l == "pop" then
+    match stack with
+    | t :: rest => hout.putStrLn "ok"; hout.flush; loopS hin hout init step t rest
+    | [] => hout.putStrLn "bad-op empty-stack"; hout.flush; loopS hin hout init step s []
   else if l.startsWith "try " then
-    -- answer without committing the operation
     let (_, out) := step s (l.drop 4).toString
     hout.putStrLn out
     hout.flush
-    loopR hin hout init step s
+    loopS hin hout init step s stack
   else
     let (s', out) := step s l
     hout.putStrLn out
     hout.flush
-    loopR hin hout init step s'
+    loopS hin hout init step s' stack
+
+def loopR {σ : Type} (hin hout : IO.FS.Stream) (init : σ) (step : σ → String → σ × String) (s : σ) : IO Unit :=
+  loopS hin hout init step s []
 
 def main (args : List String) : IO UInt32 := do
   let hin ← IO.getStdin
@@ -50,5 +61,6 @@ def main (args : List String) : IO UInt32 := do
   | ["e6"] => loopR hin hout E6.init E6.step E6.init; return 0
   | ["e5"] => loopR hin hout E5.init E5.step E5.init; return 0
   | ["e4"] => loopR hin hout E4.init E4.step E4.init; return 0
+  | ["e7"] => loopR hin hout E7.init E7.step E7.init; return 0
   | ["e2"] => loopR hin hout E2.init E2.step E2.init; return 0
   | _ => IO.eprintln "usage: driver e1|..."; return 2
